@@ -304,20 +304,36 @@ func (g *c10Gn) decl(depth int, scope []string, w c10W) []c10Decl {
 		}
 		return out
 	default:
-		// indexed reference
+		// indexed reference (inside a body mostly replaced by a new connection: the target rarely exists)
+		if (depth > 0 && g.r.Chance(0.7)) || (depth == 0 && len(g.edges) == 0 && g.r.Chance(0.85)) {
+			e := c10Decl{Kind: c10Edge, S: g.ref(depth, scope), D: g.ref(depth, scope), DA: true}
+			if depth == 0 && e.S.Ups == 0 && e.D.Ups == 0 {
+				g.edges = append(g.edges, e)
+			}
+			return []c10Decl{e}
+		}
 		var d c10Decl
-		if depth == 0 && len(g.edges) > 0 && g.r.Chance(0.85) {
+		if depth == 0 && len(g.edges) > 0 && g.r.Chance(0.93) {
 			e := g.edges[g.r.Intn(len(g.edges))]
 			d = c10Decl{S: c10Ref{Names: c10Revary(g.r, g.fams, e.S.Names)}, D: c10Ref{Names: c10Revary(g.r, g.fams, e.D.Names)}, SA: e.SA, DA: e.DA}
 		} else {
 			d = c10Decl{S: g.ref(depth, scope), D: g.ref(depth, scope), DA: true}
 		}
+		// mostly an index that exists (as far as the syntactic memory knows)
+		cnt := 0
+		for _, e := range g.edges {
+			if c10FoldEq(e.S.Names, d.S.Names) && c10FoldEq(e.D.Names, d.D.Names) && e.SA == d.SA && e.DA == d.DA {
+				cnt++
+			}
+		}
 		i := 0
-		switch g.r.Intn(6) {
-		case 0, 1:
-			i = 1
-		case 2:
-			i = g.r.Range(2, 3)
+		switch {
+		case cnt > 0 && g.r.Chance(0.8):
+			i = g.r.Intn(cnt)
+		case g.r.Chance(0.6):
+			i = cnt
+		default:
+			i = g.r.Range(0, 3)
 		}
 		d.Idx = &i
 		if g.r.Chance(0.5) {
